@@ -74,6 +74,15 @@ def run(ck: Checker):
         if p_.fin is None:
             _c05.check_stop_flag(ck, 'C11-10', p_)
             _c05.check_join_safety(ck, 'C11-10', p_)
+    # "leaving the context after a workload with failed requests": a failed request must not kill one of the threads that
+    # serve everybody (onboarding thread, batch collector, worker loops) -- a dead thread leaves later requests unanswered
+    # and makes __exit__ re-raise its error before servlet.stop() has run, or wait for a sentinel nobody forwards
+    from . import c04 as _c04
+
+    with ck.as_rule('C11-11', 'failed requests leave every service thread alive: the onboarding thread answers an input that cannot be pickled (C04-11), per-request user code is contained (C04-1), what is wrapped in RemoteException is an exception and not already a wrapper, and every value put on an output queue is wrapped (C04-2)', minimum=10):
+        _c04.check_onboarding(ck, 'C04-11')
+        _c04.check_containment(ck, 'C04-1')
+        _c04.check_all_wrapping(ck, 'C04-2')
     ck.rule('C11-8', 'leaving the with-block cannot strand a feeder in the admission wait: the gather loop removes the ledger entry and signals the admission condition exactly once per message whatever the state of the future (cancelled requests of an abandoned stream included) (the C06-4 obligations)', minimum=8)
     for name in server.SERVERS:
         server.check_slot_return(ck, 'C11-8', server.discover(ck.repo, name))
